@@ -14,6 +14,7 @@ type Pool struct {
 	New   func() any
 	items []any
 	real  realsync.Pool
+	once  realsync.Once
 }
 
 var (
@@ -79,9 +80,7 @@ func ident(x any) uintptr {
 
 func (p *Pool) Get() any {
 	if UseReal {
-		if p.real.New == nil {
-			p.real.New = p.New
-		}
+		p.once.Do(func() { p.real.New = p.New })
 		return p.real.Get()
 	}
 	if Hook != nil {
@@ -114,6 +113,7 @@ func (p *Pool) Get() any {
 
 func (p *Pool) Put(x any) {
 	if UseReal {
+		p.once.Do(func() { p.real.New = p.New })
 		p.real.Put(x)
 		return
 	}
